@@ -539,4 +539,153 @@ theorem genEvents_find_complete (bt : Int) (hB : 0 < wrap64 (bt * nsPerSec)) :
     rw [e1, e2] at this
     exact this
 
+/-! ### verifier checks: what `ok` means for each -/
+
+theorem getContext_ok {s : VState} {m : Momentum} {v : StoreView} (h : getContext s m = .ok v) :
+    m.height ≠ 1 ∧ isZeroHash m.prevHash = false ∧ s.storeAt m.prevHash (prevHeight m) = some v := by
+  unfold getContext at h
+  split at h
+  · cases h
+  · split at h
+    · cases h
+    · split at h
+      · cases h
+      · rename_i hz _ v' hv
+        cases h
+        exact ⟨by assumption, by simpa using hz, hv⟩
+
+theorem chkChainIdentifier_ok {v : StoreView} {m : Momentum} (h : chkChainIdentifier v m = .ok ()) :
+    m.chainId ≠ 0 ∧ m.chainId = v.chainId := by
+  unfold chkChainIdentifier at h
+  split at h
+  · cases h
+  · split at h
+    · cases h
+    · rename_i h1 h2
+      exact ⟨h1, by simpa using h2⟩
+
+theorem chkVersion_ok {m : Momentum} (h : chkVersion m = .ok ()) : m.version = 1 := by
+  unfold chkVersion at h
+  split at h
+  · cases h
+  · split at h
+    · cases h
+    · rename_i h2; simpa using h2
+
+theorem chkTimestamp_ok {v : StoreView} {now : Int} {m : Momentum} (h : chkTimestamp v now m = .ok ()) :
+    m.tsCache / nsPerSec ≠ 0 ∧ m.tsCache ≤ now + nsPerSec * Gen.MomentumFutureSeconds ∧ v.fTs < m.tsUnix := by
+  unfold chkTimestamp at h
+  split at h
+  · cases h
+  · split at h
+    · cases h
+    · split at h
+      · cases h
+      · rename_i h1 h2 h3
+        exact ⟨h1, by omega, by omega⟩
+
+theorem chkPrevious_ok {v : StoreView} {m : Momentum} (h : chkPrevious v m = .ok ()) :
+    m.prevHash = v.fHash ∧ prevHeight m = v.fHeight := by
+  unfold chkPrevious at h
+  split at h
+  · cases h
+  · split at h
+    · cases h
+    · split at h
+      · cases h
+      · rename_i h3
+        simp only [ne_eq, not_or, Decidable.not_not] at h3
+        exact h3
+
+theorem chkData_ok {m : Momentum} (h : chkData m = .ok ()) : m.dataLen = 0 := by
+  unfold chkData at h
+  split at h
+  · cases h
+  · rename_i h1; simpa using h1
+
+/-- every header the loop accepts has a prefetched block with the same identifier -/
+theorem contentLoop_ok {v : StoreView} {blocks : List PBlock} :
+    ∀ (content : List Header) (heads : List (Bytes × Bytes × Nat)), contentLoop v blocks heads content = .ok () →
+      ∀ h ∈ content, ∃ b, lookupBlock blocks h.hash h.height = some b
+  | [], _, _ => by intro h hh; cases hh
+  | x :: rest, heads, hok => by
+    intro h hh
+    simp only [contentLoop] at hok
+    split at hok
+    · cases hok
+    · rename_i b hb
+      rcases List.mem_cons.mp hh with rfl | hh'
+      · exact ⟨b, hb⟩
+      · split at hok
+        · exact contentLoop_ok rest _ hok h hh'
+        · split at hok
+          · cases hok
+          · exact contentLoop_ok rest _ hok h hh'
+
+theorem lookupBlock_some {blocks : List PBlock} {hash : Bytes} {height : Nat} {b : PBlock}
+    (h : lookupBlock blocks hash height = some b) : b ∈ blocks ∧ b.hash = hash ∧ b.height = height := by
+  unfold lookupBlock at h
+  have h1 := List.mem_of_find?_eq_some h
+  have h2 := List.find?_some h
+  simp only [Bool.and_eq_true, beq_iff_eq] at h2
+  exact ⟨List.mem_reverse.mp h1, h2.1, h2.2⟩
+
+theorem chkContent_ok {v : StoreView} {m : Momentum} {blocks : List PBlock} (h : chkContent v m blocks = .ok ()) :
+    m.content.length ≤ Gen.MaxAccountBlocksInMomentum ∧ distinctIds blocks = m.content.length ∧
+    ∀ hd ∈ m.content, ∃ b ∈ blocks, b.hash = hd.hash ∧ b.height = hd.height := by
+  unfold chkContent at h
+  split at h
+  · cases h
+  · split at h
+    · cases h
+    · rename_i h1 h2
+      refine ⟨by omega, by simpa using h2, ?_⟩
+      intro hd hhd
+      obtain ⟨b, hb⟩ := contentLoop_ok _ _ h hd hhd
+      obtain ⟨hb1, hb2, hb3⟩ := lookupBlock_some hb
+      exact ⟨b, hb1, hb2, hb3⟩
+
+theorem chkChangesHash_ok {m : Momentum} {o : Oracle} (h : chkChangesHash m o = .ok ()) : o.patchHash = m.changesHash := by
+  unfold chkChangesHash at h
+  split at h
+  · cases h
+  · rename_i h1; simpa using h1
+
+theorem chkHash_ok {m : Momentum} {o : Oracle} (h : chkHash m o = .ok ()) : o.computedHash = m.hash := by
+  unfold chkHash at h
+  split at h
+  · cases h
+  · rename_i h1; simpa using h1
+
+theorem chkSignature_ok {m : Momentum} {o : Oracle} (h : chkSignature m o = .ok ()) :
+    m.sigLen ≠ 0 ∧ m.pubKeyLen ≠ 0 ∧ o.sigOk = true := by
+  unfold chkSignature at h
+  split at h
+  · cases h
+  · split at h
+    · cases h
+    · split at h
+      · cases h
+      · split at h
+        · cases h
+        · rename_i h1 h2 _ h4
+          exact ⟨h1, h2, by simpa using h4⟩
+
+theorem chkProducer_ok {s : VState} {m : Momentum} {o : Oracle} (h : chkProducer s m o = .ok ()) :
+    s.expected m.tsCache = .ok o.producer := by
+  unfold chkProducer at h
+  split at h
+  · cases h
+  · rename_i exp hexp
+    split at h
+    · rename_i heq; rw [hexp, heq]
+    · cases h
+
+theorem runAll_cons_ok {f : String → Except Reason Unit} {n : String} {ns : List String}
+    (h : runAll f (n :: ns) = .ok ()) : f n = .ok () ∧ runAll f ns = .ok () := by
+  simp only [runAll] at h
+  split at h
+  · rename_i h1; exact ⟨h1, h⟩
+  · cases h
+
 end ZV.Consensus
